@@ -158,8 +158,11 @@ func (g *aolGen) msg() (string, []int) {
 		o, t, w := g.someWriter()
 		fp := ""
 		sg := []int{idx(w)}
-		if g.r.Chance(25) {
+		if g.r.Chance(30) {
 			fp = g.signerAddr(90)
+			if g.r.Chance(40) {
+				fp = pick(g.r, []string{o, w}) // the owner (or the writer itself) pays
+			}
 			sg = []int{idx(fp), idx(w)}
 		}
 		return joinSp("aol.AddRecord", toks(t), tok(g.bytesVal(70)), tok(g.bytesVal(5000)), toks(w), toks(o), toks(fp)), sg
@@ -273,6 +276,11 @@ func genAolHistory(r *RNG, nBlocks int) []string {
 			case 2:
 				if len(sg) > 1 {
 					sg[0], sg[1] = sg[1], sg[0]
+				}
+			case 3, 4:
+				if len(sg) > 1 { // one required signature is missing
+					k := r.Intn(len(sg))
+					sg = append(append([]int{}, sg[:k]...), sg[k+1:]...)
 				}
 			}
 			if len(sg) == 0 {
